@@ -15,12 +15,16 @@ use tracing::instrument;
 pub fn discover_local_files(root: &Path) -> Result<Vec<PathBuf>, Box<dyn std::error::Error>> {
     let mut files = Vec::new();
     let mut dirs = vec![root.to_path_buf()];
+    #[cfg(paiml_copia_verif)]
+    let mut dirs: Vec<copia_simworld::SimPath> = dirs.into_iter().map(Into::into).collect();
 
     while let Some(dir) = dirs.pop() {
         let entries = std::fs::read_dir(&dir)?;
         for entry in entries {
             let entry = entry?;
             let path = entry.path();
+            #[cfg(paiml_copia_verif)]
+            let path = copia_simworld::SimPath::from(path);
             if path.is_dir() && !path.is_symlink() {
                 dirs.push(path);
             } else if path.is_file() {
